@@ -128,8 +128,8 @@ def mle_cells(tier, seed):
     rs = np.random.RandomState((seed * 17 + 3) % (2 ** 32))
     out = []
     for _ in range(chunks):
-        for fam in ('beta', 'gamma', 'student_t', 'loglaplace', 'truncnorm_onesided'):
-            out.append({'family': fam, 'K': K, 'seed': int(rs.randint(0, 2 ** 31 - 1))})
+        for fam in ('beta', 'gamma', 'student_t', 'student_t_heavy', 'loglaplace', 'truncnorm_onesided'):
+            out.append({'family': fam, 'K': K if fam != 'student_t_heavy' else K // 2, 'seed': int(rs.randint(0, 2 ** 31 - 1))})
     return out
 
 
@@ -147,6 +147,11 @@ def oracle_mle(case):
             c['a'] = float(rs.uniform(0.5, 20))
         elif fam == 'student_t':
             c['a'] = float(rs.uniform(2, 30))
+        elif fam == 'student_t_heavy':
+            # members of the family without variance / without mean (df < 2, df <= 1): the sample mean and standard
+            # deviation say nothing about location and scale there
+            c['family'] = 'student_t'
+            c['a'] = float(rs.uniform(0.3, 3.0))
         elif fam == 'loglaplace':
             c['a'] = float(rs.uniform(2, 15))
         else:
